@@ -381,8 +381,9 @@ impl ToCoq for FontSpec {
             "(mkFont {} {} {} {} {} {} {} {} {} {} {} {} {} {})",
             n(self.num_glyphs),
             n(self.units_per_em),
-            z(self.ascender as i64),
-            z(self.descender as i64),
+            // the model's font carries the line metrics the font's tables define (hhea or OS/2, FontSpec::line_metrics)
+            z(self.line_metrics().0 as i64),
+            z(self.line_metrics().1 as i64),
             z(self.line_gap as i64),
             glyphs(&self.hadv),
             opt(&self.vmetrics, |v| format!(
